@@ -91,6 +91,18 @@ theorem c22_semantic_after_reaches_output (f : Func) (pre region post : List Ins
     lower f = (toks pre ++ [sel.tok] ++ toks region ++ [endI.tok] ++ pr ++ toks post, f.added) :=
   semAfter_placed f pre region post sel endI pr hbody hpne hsp hentry hexit hpre hreg hend hpost hsel hk hendk n n2 hd1 hd2 hd3
 
+/-- … on an `else`: block exit in front of, semantic-after behind the `end` of the `if` -/
+theorem c22_else_probes_reach_output (f : Func) (pre region post : List Instr) (sel endI : Instr) (pr : List Tok)
+    (hbody : f.body = pre ++ sel :: region ++ endI :: post) (hpne : post ≠ [])
+    (hsp : f.hasSpecial = true) (hentry : f.entry = []) (hexit : f.exit = [])
+    (hpre : ∀ x ∈ pre, Clean x) (hreg : ∀ x ∈ region, Clean x) (hend : Clean endI) (hpost : ∀ x ∈ post, Clean x)
+    (hk : sel.kind = .else_) (hendk : endI.kind = .end_)
+    (n n2 : Nat) (hd1 : depthAfter pre 1 = some (n + 1)) (hd2 : depthAfter region 0 = some 0) (hd3 : depthAfter post n = some n2) :
+    (OnlyExit sel pr → lower f = (toks pre ++ [sel.tok] ++ toks region ++ pr ++ [endI.tok] ++ toks post, f.added))
+    ∧ (OnlySemAfter sel pr → lower f = (toks pre ++ [sel.tok] ++ toks region ++ [endI.tok] ++ pr ++ toks post, f.added)) :=
+  ⟨fun hsel => blockExit_placed_else f pre region post sel endI pr hbody hpne hsp hentry hexit hpre hreg hend hpost hsel hk hendk n n2 hd1 hd2 hd3,
+   fun hsel => semAfter_placed_else f pre region post sel endI pr hbody hpne hsp hentry hexit hpre hreg hend hpost hsel hk hendk n n2 hd1 hd2 hd3⟩
+
 /-! non-vacuity (decided): a loop nested in a block, probe `P` in each of the three modes on the loop -/
 private def mkI (t : Tok) (k : Kind) : Instr := { tok := t, kind := k }
 set_option maxRecDepth 8000 in
